@@ -318,14 +318,28 @@ fn enumerate_derived_candidates(
                         }
                         if matches_pattern {
                             let mut new_binds = Bindings::new();
+                            let mut consistent = true;
                             for (i, bt) in bound_terms.iter().enumerate() {
                                 if let BoundTerm::Unbound(var) = bt {
                                     if let Some(val) = tuple.get(i) {
-                                        new_binds.insert(var.clone(), val.clone());
+                                        // a variable repeated in the pattern must take
+                                        // the same value at every position
+                                        match new_binds.get(var) {
+                                            Some(prev) if !values_equal(prev, val) => {
+                                                consistent = false;
+                                                break;
+                                            }
+                                            Some(_) => {}
+                                            None => {
+                                                new_binds.insert(var.clone(), val.clone());
+                                            }
+                                        }
                                     }
                                 }
                             }
-                            candidates.push((tuple, new_binds));
+                            if consistent {
+                                candidates.push((tuple, new_binds));
+                            }
                         }
                     }
                 }
